@@ -168,6 +168,9 @@ func (s *Server) now() int64 {
 	return time.Now().UnixNano() // free-running mode: the client's clock is the wall clock
 }
 
+// EncFrames: number of encrypted client frames seen so far (RotateBefore counts them from 1).
+func (s *Server) EncFrames() int { return s.encFrames }
+
 func (s *Server) nextID(parity int64) int64 {
 	t := s.now()
 	id := (t/1e9)<<32 | (t%1e9)&^3 | parity
@@ -407,7 +410,7 @@ func (s *Server) Menu() []Action {
 	}
 	if s.Opt.Gzip {
 		for i := 0; i < n && i < 2; i++ {
-			if s.Queue[i].IsResult && s.Queue[i].Kind >= 0 {
+			if s.Queue[i].IsResult {
 				m = append(m, Action{Kind: actGzip, Idx: []int{i}, Label: "gzip:" + s.Queue[i].Label})
 			}
 		}
@@ -498,8 +501,10 @@ func (s *Server) Emit(a Action) (frames [][]byte, closeConn bool) {
 			return [][]byte{s.plainFrame(o.Body)}, false
 		}
 		body := o.Body
-		if a.Kind == actGzip {
-			body = ResultBody(o.ReqMsgID, o.Tag, o.Kind, true)
+		if a.Kind == actGzip && len(body) >= 12 {
+			// rpc_result#f35c6d01 req_msg_id:long result:Object with the result object gzip-packed (whatever it
+			// is: a test result, an rpc_error, an overridden answer)
+			body = append(append([]byte{}, body[:12]...), Gzip(body[12:])...)
 		}
 		if o.ID != 0 {
 			if o.Content {
